@@ -458,7 +458,7 @@ def run(res, only=None):
     cases = common.rotate([{"pi": i, "bound": 1} for i in idxs], res.seed)
     out = common.pmap(run_case, cases)
     nontriv = 0
-    for c, r in zip(cases, out):
+    for c, r in common.good(cases, out, res):
         cnt = r["cnt"]
         res.add("traces_validated_against_impl", cnt["executions"])
         res.add("transitions", cnt["transitions"])
